@@ -553,7 +553,7 @@ func (p Parameters) BaseRNSDecompositionVectorSize(levelQ, levelP int) int {
 // QiOverflowMargin returns floor(2^64 / max(Qi)), i.e. the number of times elements of Z_max{Qi} can
 // be added together before overflowing 2^64. The function returns -1 if the moduli array is empty.
 func (p Parameters) QiOverflowMargin(level int) int {
-	if len(p.qi) == 0 {
+	if len(p.qi) == 0 || level < 0 {
 		return -1
 	}
 	return int(math.Exp2(64) / float64(slices.Max(p.qi[:level+1])))
